@@ -672,9 +672,14 @@ def siblings_of(tag, k):
 def c05(ctx):
     res = ctx.res
     for _ in range(ctx.n(2000)):
-        tag, schema, store, wdocs, info = gen_case(ctx, refs=False, depth=ctx.r.choice([1, 2, 3]))
+        tag, schema, store, wdocs, info = gen_case(ctx, refs=ctx.r.random() < 0.3, depth=ctx.r.choice([1, 2, 3]))
         cls = impl.DRAFTS[tag]
         if not isinstance(schema, dict) or "$ref" in schema:
+            continue
+        rspec = {"store": [[k, v] for k, v in store.items()]}
+        # parts are evaluated as documents of their own: references to the root itself ("#", "") would
+        # designate something else there, so only definitions and other documents may be referred to
+        if not all(rs.startswith("#/definitions/") or "://" in rs or (rs and not rs.startswith("#")) for rs in ref_strings(schema)):
             continue
         try:
             if not accepted(tag, schema):
@@ -684,15 +689,19 @@ def c05(ctx):
         idk = "id" if tag in ("d3", "d4") else "$id"
         for _ in range(2):
             inst = ctx.g.instance_for(tag, schema)
-            case = {"cls": tag, "schema": schema, "inst": inst, "budget": None}
-            whole, stop = impl.consume(cls(schema).iter_errors(inst), None)
+            case = {"cls": tag, "schema": schema, "inst": inst, "budget": None, "resolver": rspec, "world": wdocs}
+
+            def fresh(s):
+                # every run gets its own resolver; `definitions` travel with each part so that local references resolve
+                return cls(s, resolver=impl.make_resolver(cls, s, rspec, impl.World(wdocs)))
+            whole, stop = impl.consume(fresh(schema).iter_errors(inst), None)
             if stop[0] != "done":
                 continue
             wj = [impl.err_json(e) for e in whole]
             parts = []
             for k in schema:
-                sub = {kk: schema[kk] for kk in schema if kk == k or kk in siblings_of(tag, k) or kk == idk}
-                pe, ps = impl.consume(cls(sub).iter_errors(inst), None)
+                sub = {kk: schema[kk] for kk in schema if kk == k or kk in siblings_of(tag, k) or kk == idk or kk == "definitions"}
+                pe, ps = impl.consume(fresh(sub).iter_errors(inst), None)
                 parts.extend(impl.err_json(e) for e in pe
                              if (e.schema_path and e.schema_path[0] == k) or (k == "if" and e.schema_path and e.schema_path[0] in ("then", "else")))
             nontrivial = len(wj) >= 1 and len(schema) >= 2
@@ -701,9 +710,22 @@ def c05(ctx):
             if multiset(wj) != multiset(parts):
                 res.fail("union-mismatch:" + first_kw_diff(wj, parts),
                          "errors of the whole schema (%d) are not the union of its keywords' errors (%d)" % (len(wj), len(parts)), case)
-            m, i = val_pair(ctx, case)
+            m, i = val_pair(ctx, {"cls": tag, "schema": schema, "inst": inst, "budget": None, "resolver": rspec}, wdocs)
             if multiset(m.get("errs", [])) != multiset(i.get("errs", [])) or corr.diff(m.get("stop"), i.get("stop")):
                 res.disagree("VAL", case, m, i, corr.diff(m, i))
+
+
+def ref_strings(s, acc=None):
+    acc = [] if acc is None else acc
+    if isinstance(s, dict):
+        if isinstance(s.get("$ref"), str):
+            acc.append(s["$ref"])
+        for v in s.values():
+            ref_strings(v, acc)
+    elif isinstance(s, list):
+        for v in s:
+            ref_strings(v, acc)
+    return acc
 
 
 def first_kw_diff(a, b):
@@ -1138,6 +1160,14 @@ def insert_foreign(ctx, tag, schema):
         spot = ctx.r.choice(spots)
         name = ctx.r.choice(names)
         k = ctx.r.random()
+        if "$ref" in spot and k < 0.3:
+            # ANY keyword next to a reference is ignored: real keywords of the draft with values the instance fails
+            for kw, val in ctx.r.sample([("type", "null"), ("enum", []), ("minimum", 10 ** 9), ("maxItems", 0), ("maxLength", 0),
+                                         ("maxProperties", 0) if tag != "d3" else ("disallow", "any"), ("pattern", "^$"), ("minItems", 10 ** 6)], 2):
+                if kw not in spot:
+                    spot[kw] = val
+                    n += 1
+            continue
         if "$ref" in spot and k < 0.5 and idk not in spot:
             # ANY keyword next to a reference is ignored: the draft's own id keyword included
             spot[idk] = ctx.r.choice(["http://ex.org/decoy/", "a/", "b/", "http://other.org/", "x"])
@@ -1231,6 +1261,7 @@ def foreign_names(a, b):
 
 def c11(ctx):
     res = ctx.res
+    c11_histories(ctx)
     # each bundled metaschema is accepted by its own class
     for tag in DRAFT_TAGS:
         cls = impl.DRAFTS[tag]
@@ -1274,6 +1305,71 @@ def c11(ctx):
                 res.fail("check_schema-accepts-invalid", "check_schema accepted a schema its metaschema rejects", case)
 
 
+def c11_histories(ctx):
+    """check_schema's verdict must not depend on what was checked before (schemas that Python's `==`
+    cannot tell apart but the metaschema can), nor on other classes being registered under the same
+    metaschema id afterwards (each draft class keeps judging by its OWN bundled metaschema)"""
+    res = ctx.res
+    twins = [({"minLength": 1}, {"minLength": True}), ({"uniqueItems": True}, {"uniqueItems": 1}), ({"maxItems": 0}, {"maxItems": False}),
+             ({"properties": {"a": {"maxLength": 2}}}, {"properties": {"a": {"maxLength": 2.5}}}), ({"minItems": 1.0}, {"minItems": True}),
+             ({"required": ["a"]}, {"required": ["a", "a"]}), ({"enum": [1]}, {"enum": []}), ({"multipleOf": 1}, {"multipleOf": True})]
+    for tag in DRAFT_TAGS:
+        cls = impl.DRAFTS[tag]
+        for a, b in twins:
+            for first, second in ((a, b), (b, a)):
+                case = {"cls": tag, "first": first, "second": second}
+                res.note(khash(["c11hist", case]), True, None)
+                want = verdict_check_schema(cls, second, fresh=True)
+                verdict_check_schema(cls, first)
+                got = verdict_check_schema(cls, second)
+                if got != want:
+                    res.fail("check_schema-history-dependent", "check_schema(%r) after check_schema(%r) gave %s, alone %s" % (second, first, got, want), case)
+    # a dialect registered under a draft's metaschema id must not change the draft class's verdicts
+    probes = [{"properties": {"a": {"x-note": 1}}}, {"properties": {"a": {"type": 12}}}, {"items": {"minLength": -1}},
+              {"definitions": {"d": {"required": 5}}}, {"properties": {"a": {"properties": {"b": {"enum": 3}}}}}, {"anyOf": [{"type": "strng"}]}]
+    for tag in DRAFT_TAGS:
+        cls = impl.DRAFTS[tag]
+        before = [verdict_check_schema(cls, p) for p in probes]
+        saved_v = dict(V.validators)
+        saved_m = dict(V.meta_schemas.store)
+        try:
+            with warnings.catch_warnings():
+                warnings.simplefilter("ignore")
+                Dialect = V.extend(cls, validators={}, version="dialect-of-" + tag)
+            meta = copy.deepcopy(cls.META_SCHEMA)
+            meta.setdefault("properties", {})["x-note"] = {"type": "string"}
+            meta["properties"]["type"] = {}
+            Dialect.META_SCHEMA = meta
+            after = [verdict_check_schema(cls, p) for p in probes]
+            res.note(khash(["c11dialect", tag]), True, None)
+            if after != before:
+                res.fail("check_schema-changed-by-registration:" + tag,
+                         "registering a dialect under the metaschema id of %s changed its check_schema verdicts: %r -> %r" % (tag, before, after),
+                         {"cls": tag, "probes": probes})
+        finally:
+            V.validators.clear()
+            V.validators.update(saved_v)
+            V.meta_schemas.store.clear()
+            V.meta_schemas.store.update(saved_m)
+
+
+def verdict_check_schema(cls, schema, fresh=False):
+    """'ok' / 'SchemaError' / exception class; with fresh=True in a subprocess-free but cache-free way:
+    the reference verdict is the metaschema validator's own iter_errors"""
+    if fresh:
+        try:
+            return "SchemaError" if next(cls(cls.META_SCHEMA).iter_errors(schema), None) is not None else "ok"
+        except Exception as exc:        # noqa: BLE001
+            return type(exc).__name__
+    try:
+        cls.check_schema(schema)
+        return "ok"
+    except E.SchemaError:
+        return "SchemaError"
+    except Exception as exc:        # noqa: BLE001
+        return type(exc).__name__
+
+
 # ---------------------------------------------------------------------------------------------
 # C14 JSON pointer
 
@@ -1307,7 +1403,28 @@ def encode_fragment(r, tokens):
 def c14(ctx):
     res = ctx.res
     resolver = V.RefResolver("", {})
-    bad_tokens = ["-", "-1", "01", "+1", " 1", "1 ", "1_0", "1.0", "١", "２", "0x1", "1e0", "", "00", "９"]
+    bad_tokens = ["-", "-1", "01", "+1", " 1", "1 ", "1_0", "1.0", "١", "２", "0x1", "1e0", "", "00", "９",
+                  "1٠", "1２", "2५", "1𝟎", "1٢", "1%D9%A0"]
+    # a long array, so that tokens which int() would read as 10..29 stay in range
+    long_doc = {"a": ["e%d" % k for k in range(30)], "b": [[k] for k in range(12)]}
+    for tok in bad_tokens:
+        for key in ("a", "b"):
+            frag = "/%s/%s" % (key, tok)
+            case = {"doc": long_doc, "frag": frag, "tokens": [key, tok]}
+            try:
+                got = ["ok", resolver.resolve_fragment(long_doc, frag)]
+            except E.RefResolutionError:
+                got = ["RefResolutionError"]
+            except Exception as exc:        # noqa: BLE001
+                got = ["raised", type(exc).__name__]
+            res.note(khash(case), True, None)
+            if got[0] != "RefResolutionError":
+                res.fail("pointer:negative:" + ("returns-value" if got[0] == "ok" else got[1]),
+                         "token %r applied to an array gave %r" % (tok, got), case)
+            m = ctx.drv.run("PTR", {"doc": long_doc, "frag": frag}, oracle_mod.Oracle())
+            res.compared += 1
+            if corr.diff(m, got):
+                res.disagree("PTR", case, m, got, corr.diff(m, got))
     for _ in range(ctx.n(1500)):
         doc = ctx.g.value(ctx.r.choice([1, 2, 3, 3]))
         if ctx.r.random() < 0.5 and isinstance(doc, dict):
@@ -1412,6 +1529,14 @@ def c15(ctx):
                 schema[key] = list(schema[key]) + extra
         ops = ctx.g.hist_ops(tag, schema, ctx.r.randrange(2, 7))
         fail_at = set(x for x in range(6) if ctx.r.random() < 0.15)
+        # the caller's store keys in spellings that normalise to the same key (trailing '#', empty query)
+        if store and ctx.r.random() < 0.5:
+            store = {(k + ctx.r.choice(["#", "", "?", "#"]) if "#" not in k and "?" not in k else k): v for k, v in store.items()}
+        # retrievable documents that declare an id of their own, different from where they are served
+        idk = "id" if tag in ("d3", "d4") else "$id"
+        for u, doc in wdocs.items():
+            if isinstance(doc, dict) and ctx.r.random() < 0.5:
+                doc[idk] = ctx.r.choice(["http://mirror.example/" + u.rsplit("/", 1)[-1], "other.json", u + "#"])
         rows = {}
         for cache_remote, cap in [(True, 1024), (False, 1024), (True, 0), (False, 0), (True, 1), (False, 1)]:
             rspec = {"store": [[k, v] for k, v in store.items()], "cacheRemote": cache_remote, "memoCap": cap}
@@ -1558,7 +1683,13 @@ def c17(ctx):
                 for x in want:
                     if x not in node:
                         res.fail("tree-contains", "%r not reported at %r" % (x, list(pre)), case)
-                    check_node(node[x], pre + (x,))
+                        continue
+                    try:
+                        child = node[x]
+                    except Exception as exc:       # noqa: BLE001
+                        res.fail("tree-walk-raises:" + type(exc).__name__, "indexing %r at %r (which has errors beneath it) raised" % (x, list(pre)), case)
+                        continue
+                    check_node(child, pre + (x,))
             check_node(t, ())
             # model correspondence (tree shape + lookups)
             qs = []
